@@ -61,6 +61,24 @@ fn check(p: &APacket, case: &mut Case) -> Result<(), Fail> {
         let third = lib("build_bytes_vec", || edited.build_bytes_vec())?.map_err(|e| Fail::new("c02:build-failed", format!("build_bytes_vec of a clone whose answers were taken out and put back: {:?}", e)))?;
         let o3 = reparse(&third, "c02:unparseable", "the output for a clone whose answers were taken out and put back")?;
         ensure!(o3 == *p, "c02:mismatch", "a clone whose answers were taken out, serialised without them and put back parses differently: {}", diff(p, &o3));
+        // and the packet itself, changed through the public mutators after it was serialised: another response code
+        // (across the 4-bit boundary when EDNS data is set), another opcode, and the last question dropped. The
+        // next serialisation describes the packet as it is now.
+        let mut q = p.clone();
+        q.rcode = if p.edns.is_some() { if p.rcode > 15 { 3 } else { 16 } } else { (p.rcode + 1) % 11 };
+        q.opcode = NAMED_OPCODES[(NAMED_OPCODES.iter().position(|o| *o == p.opcode).unwrap_or(0) + 1) % NAMED_OPCODES.len()];
+        q.questions.pop();
+        let mut pk = pk;
+        lib("rcode_mut / opcode_mut", || -> Result<(), String> {
+            *pk.rcode_mut() = rcode_of(q.rcode)?;
+            *pk.opcode_mut() = opcode_of(q.opcode)?;
+            pk.questions.pop();
+            Ok(())
+        })?
+        .map_err(|e| Fail::new("harness:build", e))?;
+        let fourth = lib("build_bytes_vec", || pk.build_bytes_vec())?.map_err(|e| Fail::new("c02:build-failed", format!("build_bytes_vec after the mutators: {:?}", e)))?;
+        let o4 = reparse(&fourth, "c02:unparseable", "the output for a packet changed through the mutators after its first serialisation")?;
+        ensure!(o4 == q, "c02:mismatch", "a packet changed through rcode_mut / opcode_mut / questions after its first serialisation parses differently from what it holds now: {}", diff(&q, &o4));
     }
     Ok(())
 }
